@@ -7,6 +7,7 @@ package pc17
 //	       | Ptr{elem, nil?} | Slice{elem, n} | Map{string -> elem, n}
 //	       | Iface{dynamic value: struct | pointer-to-struct | slice | map | string | int, nil?}   (static type `any`)
 //	       | String | Int | Bytes ([]byte) | Bool (filler only, cannot carry a canary)
+//	       | Rec (rec_test.go) | Twin{pair, instantiation, secret?} (twin_test.go): values of statically declared types
 //
 // Go arrays are never generated ("Go arrays excepted, as documented").
 
@@ -50,6 +51,8 @@ type Shape struct {
 	Nil bool `json:"nil,omitempty"`
 	// R describes the value of a "rec" node.
 	R *RecRoot `json:"r,omitempty"`
+	// W describes the value of a "twin" node (twin_test.go).
+	W *TwinRef `json:"w,omitempty"`
 }
 
 // Field is a struct field; its name is "F<position>".
@@ -240,6 +243,9 @@ func validShape(s *Shape, depth int, inIface bool, leaves *int) error {
 	case kRec:
 		*leaves += recLeafCost
 		return validRec(s.R)
+	case kTwin:
+		*leaves += twinLeafCost
+		return validTwin(s.W)
 	case kString, kInt, kBytes, kBool:
 		*leaves++
 	default:
@@ -297,6 +303,8 @@ func typeOf(s *Shape) reflect.Type {
 		return anyType
 	case kRec:
 		return recTypeOf(s.R)
+	case kTwin:
+		return twinTypeOf(s.W)
 	case kString:
 		return reflect.TypeOf("")
 	case kInt:
@@ -483,6 +491,8 @@ func (b *valueBuilder) value(s *Shape, p pathInfo) reflect.Value {
 		return v
 	case kRec:
 		return b.recValue(t, &s.R.V, p)
+	case kTwin:
+		return b.staticValue(t, p)
 	case kString:
 		return reflect.ValueOf(b.plant('s', p).str())
 	case kInt:
@@ -518,11 +528,18 @@ var hardEdges = map[string]bool{
 func joinKinds(ks []string) string { return strings.Join(ks, ">") }
 
 // classOf is the structural class of a canary for a rule signature: pathClass, and for otherwise plain paths
-// "below-ignore-tagged-field" when an ignore-tagged field lies above the (secure-tagged field of the) canary.
+// "below-ignore-tagged-field" when an ignore-tagged field lies above the (secure-tagged field of the) canary; the
+// suffix ":twin-type" when the path runs through a value of a twin type.
 func classOf(c Canary) string {
 	cls := pathClass(c.Path)
 	if cls == "plain" && c.IgnoreAbove != "" {
-		return "below-ignore-tagged-field"
+		cls = "below-ignore-tagged-field"
+	}
+	for _, k := range strings.Split(c.Path, ">") {
+		if k == kTwin {
+			// the canary sits in a value of a twin type (twin_test.go): the verdict may depend on the primer
+			return cls + ":twin-type"
+		}
 	}
 	return cls
 }
